@@ -467,7 +467,6 @@ func (bg *Reader) Seek(off Offset) error {
 				case dec = <-bg.working:
 					blk, err := dec.wait()
 					if err == nil {
-						bg.keep(blk)
 						if blk.Base() == off.File {
 							// This decompressor had the block we
 							// wanted.
@@ -476,6 +475,8 @@ func (bg *Reader) Seek(off Offset) error {
 							bg.control <- bg.current.NextBase()
 							bg.waiting <- dec
 							dec = nil
+						} else {
+							bg.keep(blk)
 						}
 					}
 				}
